@@ -414,8 +414,8 @@ VARIANTS = [
             '\n'
             "    # Give a special repr() that'll eval in a REPL.\n"},
 
-    # audit round (D53-D55): anchored on the FIXED text, inapplicable until the fixes are committed
-    {'name': 'R11 D53 re-introduced: date encode truncates the float product again',
+    # audit round (D100-D102): anchored on the FIXED text, inapplicable until the fixes are committed
+    {'name': 'R11 D100 re-introduced: date encode truncates the float product again',
      'file': 'hippolyzer/lib/base/templates.py',
      'expect': 'C09.R11',
      'old': '        secs = round(when.replace(microsecond=0).timestamp())\n'
@@ -429,7 +429,7 @@ VARIANTS = [
      'new': '        whole = round(when.replace(microsecond=0).timestamp())\n'
             '        ticks = when.microsecond * self._multiplier // 1_000_000\n'
             '        return whole * self._multiplier + ticks\n'},
-    {'name': 'R12 D54 re-introduced: out-of-range stamps raise again',
+    {'name': 'R12 D101 re-introduced: out-of-range stamps raise again',
      'file': 'hippolyzer/lib/base/templates.py',
      'expect': 'C09.R12',
      'old': '        try:\n'
@@ -451,7 +451,7 @@ VARIANTS = [
      'expect': 'silent',
      'old': '        except (ValueError, OverflowError, OSError):\n',
      'new': '        except Exception:\n'},
-    {'name': 'R13 D55 re-introduced: empty body still gets a terminator',
+    {'name': 'R13 D102 re-introduced: empty body still gets a terminator',
      'file': 'hippolyzer/lib/base/serialization.py',
      'expect': 'C09.R13',
      'old': '            body = BufferWriter(writer.endianness)\n'
@@ -464,4 +464,65 @@ VARIANTS = [
      'expect': 'silent',
      'old': '            if not body.buffer:\n                return\n',
      'new': '            if len(body.buffer) == 0:\n                return\n'},
+]
+
+
+# ---------------------------------------------------------------- re-anchored after the audit fixes 0a35580 / 33dd984
+# (DateAdapter was rewritten with integer arithmetic and an out-of-range fall-back; the R3 variants below replace
+# the ones written against the old one-line decode / encode)
+_STALE = {
+    "R3 date decode through date.fromtimestamp (local)",
+    "R3 date encode through time.mktime",
+    "R3 encode re-reads a parsed value through astimezone()",
+    "P R3 rename the raw parameter (known key stays the same)",
+    "P R3 decode made zone independent",
+    "P R3 encode normalises naive values first",
+    "R3 decode shifts by the process' DST offset constant",
+    "R3 zone constant imported by name",
+}
+_DEC = "            when = datetime.datetime.fromtimestamp(secs)\n"
+_ENC_SECS = "        secs = round(when.replace(microsecond=0).timestamp())\n"
+_IMP = {"file": TMPL, "old": "import math\nimport zlib\n", "new": "import math\nimport time\nimport zlib\n"}
+_DEC_BLOCK = (
+    "    def decode(self, val: Any, ctx: Optional[se.ParseContext], pod: bool = False) -> Any:\n"
+    "        # Whole seconds and the sub-second part are kept apart, a float of seconds\n"
+    "        # can't hold a microsecond stamp exactly\n"
+    "        secs, frac = divmod(val, self._multiplier)\n"
+    "        try:\n"
+    "            when = datetime.datetime.fromtimestamp(secs)\n"
+    "        except (ValueError, OverflowError, OSError):\n"
+    "            # Further out than `datetime` reaches. Same convention as the enum\n"
+    "            # adapters, what can't be prettified stays a plain number.\n"
+    "            return val\n"
+)
+VARIANTS = [v for v in VARIANTS if v["name"] not in _STALE] + [
+    {"name": "R3 date decode through date.fromtimestamp (local)", "file": TMPL, "expect": "C09.R3",
+     "old": _DEC,
+     "new": "            when = datetime.datetime.combine(datetime.date.fromtimestamp(secs), datetime.time())\n"},
+    {"name": "R3 date encode through time.mktime", "expect": "C09.R3",
+     "edits": [_IMP, {"file": TMPL, "old": _ENC_SECS,
+                      "new": "        secs = round(time.mktime(when.replace(microsecond=0).timetuple()))\n"}]},
+    {"name": "R3 encode re-reads a parsed value through astimezone()", "file": TMPL, "expect": "C09.R3",
+     "old": _ENC_SECS,
+     "new": "        secs = round(when.replace(microsecond=0).astimezone(datetime.timezone.utc).timestamp())\n"},
+    {"name": "P R3 rename the raw parameter (known key stays the same)", "file": TMPL, "expect": "silent",
+     "old": _DEC_BLOCK,
+     "new": _DEC_BLOCK.replace("self, val: Any", "self, raw: Any").replace("divmod(val,", "divmod(raw,")
+                      .replace("return val\n", "return raw\n")},
+    {"name": "P R3 decode made zone independent", "file": TMPL, "expect": "silent",
+     "old": _DEC, "new": "            when = datetime.datetime.fromtimestamp(secs, tz=datetime.timezone.utc)\n"},
+    {"name": "P R3 encode normalises naive values first", "file": TMPL, "expect": "silent",
+     "old": "        when = datetime.datetime.fromisoformat(val)\n" + _ENC_SECS,
+     "new": "        when = datetime.datetime.fromisoformat(val)\n"
+            "        if when.tzinfo is None:\n"
+            "            when = when.replace(tzinfo=datetime.timezone.utc)\n"
+            "        secs = round(when.timestamp())\n"},
+    {"name": "R3 decode shifts by the process' DST offset constant", "expect": "C09.R3",
+     "edits": [_IMP, {"file": TMPL, "old": _DEC,
+                      "new": "            when = datetime.datetime.utcfromtimestamp(secs - time.altzone)\n"}]},
+    {"name": "R3 zone constant imported by name", "expect": "C09.R3",
+     "edits": [{"file": TMPL, "old": "import math\nimport zlib\n",
+                "new": "import math\nfrom time import timezone as _tzoff\nimport zlib\n"},
+               {"file": TMPL, "old": _ENC_SECS,
+                "new": "        secs = round(when.replace(microsecond=0).timestamp()) - _tzoff + _tzoff\n"}]},
 ]
